@@ -127,6 +127,11 @@ type nodeState struct {
 	confirmedSeen map[Hash]bool
 	baseline      map[Hash]bool // vertices obtained by sync (taken as given)
 	everLive      map[Hash]bool
+	// tainted: wallets (other than the genesis issuer) whose net flow over the stored vertices was
+	// negative at some snapshot. No checkpoint can represent that (the code keeps the gross inflow),
+	// so everything later validated against that wallet's checkpoint is a consequence of one
+	// root cause (merged double spend or trusted exemption, then truncation), reported under its own cause.
+	tainted map[string]bool
 }
 
 func (w *World) nstate(node int) *nodeState {
@@ -135,7 +140,7 @@ func (w *World) nstate(node int) *nodeState {
 	}
 	st := w.nstates[node]
 	if st == nil {
-		st = &nodeState{confirmedSeen: map[Hash]bool{}, baseline: map[Hash]bool{}, everLive: map[Hash]bool{}}
+		st = &nodeState{confirmedSeen: map[Hash]bool{}, baseline: map[Hash]bool{}, everLive: map[Hash]bool{}, tainted: map[string]bool{}}
 		w.nstates[node] = st
 	}
 	return st
@@ -150,6 +155,7 @@ func (w *World) checkSnap(cur *Snap) {
 		st.prev = cur
 		return
 	}
+	w.noteTainted(cur, st)
 	w.oracleC09(cur)
 	w.oracleC03(cur)
 	w.oracleC10(cur)
@@ -159,6 +165,33 @@ func (w *World) checkSnap(cur *Snap) {
 		st.everLive[h] = true
 	}
 	st.prev = cur
+}
+
+func (w *World) noteTainted(s *Snap, st *nodeState) {
+	if len(s.Stored) == 0 {
+		return
+	}
+	stored := map[Hash]*accountant.Vertex{}
+	addrs := map[string]bool{}
+	gi := ""
+	for h, sv := range s.Stored {
+		stored[h] = &sv.V
+		if isGenesisShape(&sv.V) {
+			gi = sv.V.Transaction.IssuerAddress
+		}
+		if isTransfer(&sv.V.Transaction) {
+			addrs[sv.V.Transaction.IssuerAddress] = true
+		}
+	}
+	for a := range addrs {
+		if a == gi || st.tainted[a] {
+			continue
+		}
+		if in, out := flows(a, stored); in.Cmp(out) < 0 {
+			st.tainted[a] = true
+			w.probe("checkpoint-cannot-represent-overdrawn-wallet")
+		}
+	}
 }
 
 // ---------- C09 ----------
@@ -414,6 +447,9 @@ func (w *World) oracleC01(cur, prev *Snap, st *nodeState) {
 			if w.wasRootTip(prev, h) {
 				cause = "tip-was-graph-root-after-truncation"
 			}
+			if st.tainted[v.Transaction.IssuerAddress] {
+				cause = "checkpoint-cannot-represent-overdrawn-history"
+			}
 			w.violate("C01", "overdraw", cause, n, "vertex %s issuer %s in=%s out=%s", hx(h), v.Transaction.IssuerAddress[:8], in1, out1)
 		}
 	}
@@ -451,8 +487,19 @@ func (w *World) checkTipsDropped(before, after *Snap) {
 			continue
 		}
 		w.probe("c01-overdrawn-tip-examined")
+		if w.nstate(n).tainted[sv.V.Transaction.IssuerAddress] {
+			if _, still := after.Live[h]; still {
+				w.violate("C01", "not-dropped", "checkpoint-cannot-represent-overdrawn-history", n, "tip %s in=%s out=%s", hx(h), in, out)
+			}
+			continue
+		}
 		if _, still := after.Live[h]; still {
-			w.violate("C01", "not-dropped", "overdrawn-tip-kept-after-proposal", n, "tip %s in=%s out=%s", hx(h), in, out)
+			st := map[Hash]*accountant.Vertex{}
+			for sh, ssv := range before.Stored {
+				st[sh] = &ssv.V
+			}
+			si, so := flows(sv.V.Transaction.IssuerAddress, st)
+			w.violate("C01", "not-dropped", "overdrawn-tip-kept-after-proposal", n, "tip %s in=%s out=%s; issuer stored in/out %s/%s funds record %v; tip graph parents %d declared %s %s; leaves before %d after %d", hx(h), in, out, si, so, before.Funds[sv.V.Transaction.IssuerAddress], len(sv.GParents), hx(sv.V.LeftParentHash), hx(sv.V.RightParentHash), len(before.Leaves), len(after.Leaves))
 		}
 		if _, idx := after.Index[sv.V.Transaction.Hash]; idx {
 			if _, still := after.Live[h]; !still {
@@ -517,6 +564,8 @@ func (w *World) oracleC02(s *Snap) {
 	if len(over) > 0 {
 		// classify: is every confirmed vertex individually fine on its own history?
 		allOK := true
+		invalidTaintedOnly := true
+		stn := w.nstate(n)
 		for _, h := range sortedHashes(conf) {
 			v := conf[h]
 			if !isTransfer(&v.Transaction) || isGenesisShape(v) {
@@ -528,12 +577,17 @@ func (w *World) oracleC02(s *Snap) {
 				ok2, _, _, _ := w.refFunds(s, nil, v)
 				if !ok2 {
 					allOK = false
+					if !stn.tainted[v.Transaction.IssuerAddress] {
+						invalidTaintedOnly = false
+					}
 				}
 			}
 		}
 		cause := "some-branch-individually-invalid"
 		if allOK {
 			cause = "all-branches-individually-valid"
+		} else if invalidTaintedOnly {
+			cause = "individually-invalid-only-after-clamped-checkpoint"
 		}
 		w.violate("C02", "union-overdraw", cause, n, "overdrawn: %v", over)
 		return
